@@ -11,6 +11,7 @@ same set; a second session whose view still contains messages expunged by someon
 from __future__ import annotations
 import asyncio
 import random
+import re
 
 from .common import wire, backends, imapresp, l3
 from .common.model import batch
@@ -402,6 +403,37 @@ async def mailbox_case(part, r, nqueries, backend_kind='dict'):
         if a0 is not None and b0 is not None and a0 != b0:
             part.violation('monitor', f'logically equivalent programs return different sets: {[key_wire(k).decode() for k in keys]} -> {a0}; '
                            f'{[key_wire(k).decode() for k in variants[1][1]]} -> {b0}', dict(query=repr(keys), rewritten=repr(variants[1][1])), signature='search-algebra')
+    # another connection expunges the messages that carry \\Deleted; this one is not told (a SEARCH by number must not be) and searches its unchanged view: the numbers
+    # still name the same messages, and what the keys say about a message that is gone from the store is what they said before
+    gone = [m for m in view if 3 in m['flags']]
+    if gone and len(gone) < len(view) and r.random() < 0.7:
+        b = wire.Client(srv)
+        await b.start()
+        await b.send(b'b LOGIN u p\r\n')
+        await b.send(b'b SELECT INBOX\r\n')
+        await b.send(b'b EXPUNGE\r\n')
+        await b.eof()
+        for q in range(max(3, nqueries // 2)):
+            ks = [gen_key(r, 2, maxseq, 100) for _ in range(r.randint(1, 2))]
+            line = b' '.join(key_wire(k) for k in ks)
+            raw = await a.send(b'a SEARCH ' + line + b'\r\n')
+            case = dict(scenario='hidden-expunged', messages=[dict(uid=m['uid'], flags=m['flags'], iday=m['iday'], iclock=m['iclock'], sday=m['sday'], size=m['size'], recent=m['recent'],
+                                                                    raw=m['raw'].decode('ascii')) for m in view], expunged_by_another=[m['uid'] for m in gone], query=line.decode('ascii'), uid=False)
+            if b' EXPUNGE\r\n' in raw:
+                part.violation('monitor', f'SEARCH {line.decode()} (by number) was answered with an untagged EXPUNGE: {raw[:160]!r}', case, signature='search-sends-expunge')
+                break
+            mt = re.search(rb'^\* SEARCH((?: \d+)*)\r\n', raw, re.M)
+            if b'a OK' not in raw:
+                part.violation('monitor', f'SEARCH {line.decode()} on a view with hidden expunged messages answered {raw[:120]!r}', case, signature='search-refused')
+                continue
+            ids = [int(x) for x in mt.group(1).split()] if mt else []
+            got_uids = sorted(view[i - 1]['uid'] for i in ids if 1 <= i <= len(view))
+            want = sorted(m['uid'] for m in view if all(ev(k, m, maxseq, maxuid) for k in ks))
+            part.stat('hidden-expunged-search')
+            part.case(key=repr(('hidden', case['messages'], line)), nontrivial=0 < len(want) < len(view), sample=dict(query=line.decode(), hidden=case['expunged_by_another'], result=got_uids))
+            if got_uids != want or any(not (1 <= i <= len(view)) for i in ids):
+                part.violation('monitor', f'SEARCH {line.decode()} on a view in which uids {case["expunged_by_another"]} are expunged but not yet reported returned {ids} (uids {got_uids}); '
+                               f'over the messages of the view RFC 3501 gives uids {want}', case, signature='search-hidden:' + first_leaf(ks))
     await a.eof()
     if model_lines:
         res = batch(model_lines)
